@@ -159,21 +159,40 @@ func certs() []certPair {
 // certIdentity names the key pair inside a PEM bundle by its certificate CN
 // (pool certificates have unique CNs). "" when nothing parses.
 func certIdentity(pemData []byte) string {
+	id := ""
 	for len(pemData) > 0 {
 		var b *pem.Block
 		b, pemData = pem.Decode(pemData)
 		if b == nil {
-			return ""
+			return id
 		}
 		if b.Type == "CERTIFICATE" {
 			c, err := x509.ParseCertificate(b.Bytes)
 			if err != nil {
 				return ""
 			}
-			return c.Subject.CommonName + "#" + c.SerialNumber.String()
+			if id != "" {
+				id += "+" // the rest of the chain is part of what is served
+			}
+			id += c.Subject.CommonName + "#" + c.SerialNumber.String()
 		}
 	}
-	return ""
+	return id
+}
+
+// leafPEM returns the first certificate block of a bundle.
+func leafPEM(pemData []byte) []byte {
+	for len(pemData) > 0 {
+		var b *pem.Block
+		b, pemData = pem.Decode(pemData)
+		if b == nil {
+			return nil
+		}
+		if b.Type == "CERTIFICATE" {
+			return pem.EncodeToMemory(b)
+		}
+	}
+	return nil
 }
 
 // validPEMPair reports whether the bundle holds a certificate and its key.
